@@ -24,6 +24,7 @@ LEAN_DIR = os.path.join(ROOT, "lean")
 EVIDENCE_DIR = os.path.join(ROOT, "evidence")
 REPLAY_DIR = os.path.join(ROOT, "replays")
 KNOWN_FILE = os.path.join(ROOT, "known_findings.jsonl")
+CORPUS_DIR = os.path.join(ROOT, "corpus")
 REPO = os.environ.get("VERIF_REPO", "/repo")
 
 ALLOWED_AXIOMS = {"propext", "Classical.choice", "Quot.sound"}
@@ -221,6 +222,19 @@ def lean_driver(driver, lines, timeout=1800):
 
 # ---------------------------------------------------------------- context
 
+def regression_corpus(prop_id):
+    """Minimised inputs on which an earlier version of the code under test (a seeded change, a repaired defect) violated the
+    property: corpus/<id>.jsonl, one replay-format object per line; every run of the check evaluates them as well."""
+    path = os.path.join(CORPUS_DIR, prop_id + ".jsonl")
+    out = []
+    if os.path.exists(path):
+        for line in open(path):
+            line = line.strip()
+            if line and not line.startswith("#"):
+                out.append(json.loads(line))
+    return out
+
+
 def known_findings(prop_id):
     res = []
     if os.path.exists(KNOWN_FILE):
@@ -286,7 +300,10 @@ class Ctx:
                     self.coverage["samples"].append(case)
 
     def audit(self, module=None, extra_modules=()):
+        if getattr(self, "_audit_result", None) is not None:
+            return self._audit_result        # once per run (the regression corpus re-enters the modules' replay functions)
         a = lean_audit(self.prop, module=module, extra_modules=extra_modules)
+        self._audit_result = a
         self.coverage["obligations"] = a["obligations"]
         self.coverage["discharged"] = a["discharged"]
         self.coverage["checker_cmd"] = (
